@@ -173,10 +173,8 @@ namespace ST
             if (this == &copy)
                 return *this;
 
-            if (is_reffed()) {
-                delete[] m_chars;
-                m_size = 0;
-            }
+            // Become a valid empty buffer first, in case the allocation throws
+            clear();
 
             if (copy.is_reffed()) {
                 m_chars = new char_T[copy.m_size + 1];
@@ -411,13 +409,12 @@ namespace ST
 
         void allocate(size_t size)
         {
-            if (is_reffed())
-                delete[] m_chars;
-            else
-                traits_t::assign(m_data, local_length, 0);
+            // Become a valid empty buffer first, in case the allocation throws
+            clear();
 
+            if (size >= local_length)
+                m_chars = new char_T[size + 1];
             m_size = size;
-            m_chars = is_reffed() ? new char_T[m_size + 1] : m_data;
             m_chars[m_size] = 0;
         }
 
